@@ -296,7 +296,7 @@ def _args(toks, i, name):
 # --------------------------------------------------------------------------
 # writer: Python term -> Prolog source text (functional notation, always safe to read)
 
-_PLAIN = re.compile(r'^[a-z][A-Za-z0-9_]*$')
+_PLAIN = re.compile(r'\A[a-z][A-Za-z0-9_]*\Z')
 
 
 def quote_atom(s):
